@@ -62,6 +62,7 @@ type FuncSpec struct {
 	Modifies []string
 	Nilable  map[string]bool
 	Flows    map[string][]string
+	AssignsNone bool
 	Trusted  bool
 	Pure     bool
 	NoSafety bool // do not emit zero-annotation safety obligations
@@ -121,7 +122,7 @@ var clauseKeywords = map[string]bool{
 	"props": true, "trusted": true, "pure": true, "requires": true, "ensures": true,
 	"modifies": true, "ghost": true, "use": true, "on": true, "after": true, "before": true,
 	"loop": true, "invariant": true, "decreases": true, "nonnil": true, "lock": true,
-	"lockinv": true, "guarantee": true, "rely": true, "fresh": true, "exit": true, "flows": true, "nilable": true, "nosafety": true, "using": true,
+	"lockinv": true, "guarantee": true, "rely": true, "fresh": true, "exit": true, "flows": true, "assigns": true, "assumes": true, "nilable": true, "nosafety": true, "using": true,
 }
 
 type rawClause struct {
@@ -307,12 +308,17 @@ func parseContractFile(path string, requirePrefix bool) (*ContractFile, error) {
 				return nil, errf(rc, "nosafety outside func")
 			}
 			curF.NoSafety = true
-		case "requires", "ensures":
+		case "requires", "ensures", "assumes":
 			if curF == nil {
 				return nil, errf(rc, "%s outside func", rc.kw)
 			}
 			c := parseClause(rc.kw, rc.rest, path, rc.line)
-			if rc.kw == "requires" {
+			if rc.kw == "assumes" {
+				// a precondition established by the environment (e.g. net/http
+				// calling a handler); recorded in the trusted base
+				c.Kind = "assumes"
+				curF.Requires = append(curF.Requires, c)
+			} else if rc.kw == "requires" {
 				curF.Requires = append(curF.Requires, c)
 			} else {
 				curF.Ensures = append(curF.Ensures, c)
@@ -323,6 +329,14 @@ func parseContractFile(path string, requirePrefix bool) (*ContractFile, error) {
 				return nil, errf(rc, "modifies outside func")
 			}
 			curF.Modifies = append(curF.Modifies, splitNames(rc.rest)...)
+		case "assigns":
+			if curF == nil {
+				return nil, errf(rc, "assigns outside func")
+			}
+			if strings.TrimSpace(rc.rest) != "none" {
+				return nil, errf(rc, "only `assigns none` is supported")
+			}
+			curF.AssignsNone = true
 		case "flows":
 			if curF == nil {
 				return nil, errf(rc, "flows outside func")
